@@ -627,7 +627,7 @@ Definition fileformat_step (f : fmt) (c : codec) (ctx : dict) (files : fs) : res
             | Some _ => Unsup
             end in
           match fs_read path_in files with
-          | None => Unsup       (* empty glob result: nothing is rewritten *)
+          | None => Ok files    (* the glob matches nothing: nothing is rewritten *)
           | Some text =>
               let* out := fileformat_obj c ctx text in
               Ok (fs_write path_out out files)
